@@ -337,6 +337,21 @@ def rw_common(toks, log):
     toks = replace_all(toks, ["err", ".", "to_string", "(", ")"], ["err_to_string", "(", "&", "err", ")"], log,
                        "R17 err.to_string() -> err_to_string(&err)")
     toks = replace_all(toks, ["u8", "::", "from", "("], ["u8_from_bool", "("], log, "R26 u8::from(bool) -> u8_from_bool wrapper")
+    # R31 RECV.starts_with('c') (char-literal pattern) -> str_starts_with_char(&RECV, 'c')   (trusted wrapper in prelude/base.rs, A4)
+    cnt31 = 0
+    i = 0
+    while i + 5 < len(toks):
+        if toks[i] == "." and toks[i + 1] == "starts_with" and toks[i + 2] == "(" and toks[i + 3].startswith("'") and toks[i + 3].endswith("'") and len(toks[i + 3]) >= 3 and toks[i + 4] == ")":
+            st = expr_start_back(toks, i)
+            if st < i:
+                recv = toks[st:i]
+                toks = toks[:st] + ["str_starts_with_char", "(", "&"] + recv + [",", toks[i + 3], ")"] + toks[i + 5:]
+                cnt31 += 1
+                i = st + 5 + len(recv)
+                continue
+        i += 1
+    if cnt31:
+        log.append(("R31 str.starts_with(char literal) -> str_starts_with_char wrapper", cnt31))
     # block_on(E) -> E  (after R1 the argument is a plain call)
     toks = replace_all(toks, ["block_on", "("], ["("], log, "R1b block_on(f) -> (f)")
     # crate:: paths: everything lives in one flat module
